@@ -10,9 +10,9 @@ TRUSTED_COMMON = [
 
 PROPS = {
     'C01': {
-        'lean_modules': ['C01', 'ArithTie'],
+        'lean_modules': ['C01', 'ArithTieBloom'],
         'required_theorems': ['tie_bloomIndexInt', 'C01_no_false_negative', 'C01_empty_absent', 'C01_probe_in_range', 'C01_no_false_negative_concrete'],
-        'suites': ['bloom', 'conc'],
+        'suites': ['bloom', 'conc', 'redisconc'],
         'race_suites': ['conc'],
         'level': 'proof',
         'explanation': 'Theorems C01_* (Lean 4) over the bit-array model for an arbitrary in-range probe function and every history; '
@@ -25,7 +25,7 @@ PROPS = {
     },
 
     'C02': {
-        'lean_modules': ['C02', 'ArithTie'],
+        'lean_modules': ['C02', 'ArithTieCuckoo'],
         'required_theorems': ['tie_cuckooFirstIndex', 'tie_cuckooSecondIndex', 'tie_cuckooKickIndexMem', 'tie_cuckooKickIndexRedis', 'C02_no_false_negative', 'C02_insert_ok_stored', 'C02_insert_preserves_lookup', 'C02_alt_involutive_pow2',
                               'C02_alt_not_involutive_npow2', 'C02_no_kick_any_n_partial', 'C02_npow2_kick_loses_element'],
         'suites': ['cuckoo', 'conc'],
@@ -40,7 +40,7 @@ PROPS = {
                         'math/rand stream reproduced by rand.Seed for the correspondence check'],
     },
     'C03': {
-        'lean_modules': ['C03', 'ArithTie'],
+        'lean_modules': ['C03', 'ArithTieCMS'],
         'required_theorems': ['tie_cmsPosition', 'C03_lower', 'C03_upper', 'C03_exact_single', 'C03_empty_zero', 'C03_concrete'],
         'suites': ['cms', 'conc', 'redisconc'],
         'race_suites': ['conc'],
@@ -63,7 +63,7 @@ PROPS = {
                         'element names valid UTF-8 without protocol separators in the correspondence suite'],
     },
     'C05': {
-        'lean_modules': ['C05', 'ArithTie'],
+        'lean_modules': ['C05', 'ArithTieHLL'],
         'required_theorems': ['tie_hllRegisterIndex', 'tie_hllStoredValueMem', 'tie_hllStoredValueRedis', 'C05_update_ok_iff', 'C05_registers_confined', 'C05_index_range'],
         'suites': ['hllacc', 'hll', 'redisconc'],
         'level': 'proof',
@@ -134,8 +134,8 @@ PROPS = {
     },
 
     'C08': {
-        'lean_modules': ['C08', 'C04', 'C08Cuckoo', 'C08TopK', 'C08Bucket', 'C08ZSet'],
-        'required_theorems': ['C08_cuckoo_until_kick', 'C08_topk_no_tie_equal', 'C08_topk_history', 'C08_bucket_add', 'C08_bucket_remove', 'C08_bucket_lookup', 'C08_topk_insert_cmds', 'C08_cms_update', 'C08_cms_count', 'C08_cms_merge', 'C08_hll_update', 'C08_hll_merge', 'C08_bloom_insert', 'C08_bloom_lookup',
+        'lean_modules': ['C08', 'C04', 'C08Cuckoo', 'C08TopK', 'C08Bucket', 'C08ZSet', 'LuaBucket', 'LuaCMS', 'LuaHLL'],
+        'required_theorems': ['lua_count_min_sketch_redis_updateLists_eq', 'lua_count_min_sketch_redis_countLists_eq', 'lua_count_min_sketch_redis_mergeMatrixScript_eq', 'lua_updateList_eq', 'lua_mergeRegisters_eq', 'lua_hllEquals_eq', 'lua_importHeap_eq', 'lua_topkEquals_eq', 'lua_isFreeScript_eq', 'lua_addElement_eq', 'lua_removeElement_eq', 'lua_exists_eq', 'lua_equals_eq', 'lua_initCuckooFilterRedis_eq', 'C08_cuckoo_until_kick', 'C08_topk_no_tie_equal', 'C08_topk_history', 'C08_bucket_add', 'C08_bucket_remove', 'C08_bucket_lookup', 'C08_topk_insert_cmds', 'C08_cms_update', 'C08_cms_count', 'C08_cms_merge', 'C08_hll_update', 'C08_hll_merge', 'C08_bloom_insert', 'C08_bloom_lookup',
                               'C04_mem_refines_spec', 'C04_redis_refines_spec'],
         'suites': ['lockstep', 'redistie', 'cms', 'hll', 'bloom', 'topk', 'redisconc', 'luatie'],
         'level': 'proof',
@@ -183,7 +183,7 @@ PROPS = {
     'C19': {
         'lean_modules': ['C19'],
         'required_theorems': ['C19_disjoint', 'C19_keys_nodup', 'C19_noninterference', 'C19_noninterference_n', 'C19_import_new_keys', 'C19_frame_cms_update', 'C19_keysOfKind_cuckoo'],
-        'suites': ['isolation'],
+        'suites': ['isolation', 'redisconc'],
         'level': 'proof',
         'explanation': 'Lean: key names of every structure transcribed; handles with distinct 16-letter base keys have disjoint key sets; operations supported on disjoint key sets do not interfere under ANY interleaving of any number of structures (each observes its solo run), an import under new keys changes no other key. '
                        'Suite `isolation` runs 2-8 structures of random kinds in one database: every structure is compared step by step with its solo run, and the keys each operation changes must lie in the model key set of that structure and in no other structure.',
@@ -208,10 +208,10 @@ PROPS = {
     },
 
     'C15': {
-        'lean_modules': ['C15', 'C15Prob', 'ArithTie'],
+        'lean_modules': ['C15', 'C15Prob', 'ArithTieCMS', 'ArithTieBloom'],
         'required_theorems': ['tie_cmsPositionsOf', 'tie_bloomIndexInt', 'C15_bloom_size', 'C15_cms_cols', 'C15_cms_rows', 'C15_cubic_term_exact', 'C15_probes_scheme', 'C15_cuckoo_fpl_counterexample',
                               'C15_cms_eps_delta_ideal', 'C15_cms_eps_delta_ideal_count'],
-        'suites': ['sizing'],
+        'suites': ['sizing', 'redisconc'],
         'level': 'other',
         'explanation': 'PARTIAL by nature: the claim is statistical and about concrete hash functions. Proved in Lean (Mathlib reals): the sizing formulas give m >= n ln(1/p)/ln^2 2, e/cols <= eps, e^-rows <= delta; the probe sequences are (enhanced) double hashing with an exact cubic term; the cuckoo sizing is refuted (fingerprint length in bytes used as decimal digits, finding D22). '
                        'Props/C15Prob: the Count-Min (eps, delta) clause is PROVED for ideal hashing - for the sketch the constructor builds (rows = ceil(ln 1/delta), cols = ceil(e/eps)), any history and any element, the fraction of the hash family (every row drawn uniformly and independently from all functions E -> Fin cols) for which Count exceeds the true count by more than eps*N is at most delta (C15_cms_eps_delta_ideal, by counting: cell invariant of C03, Markov by double counting, product set, (1/e)^rows <= delta). The concrete double-hashing scheme of the code is not covered by it. '
